@@ -120,4 +120,19 @@ theorem from_lists_empty_frame :
     ((packSortedDf ({ index := [], cols := [("l", "list<int64>", ([] : List Nat))] } : FlatDF Nat)).map (·.col.ty))
       = .ok [("l", "list<int64>")] := by decide
 
+/-! ### K10 — a nested column that is called "base"
+
+    `reduce`, `sort_values` and `dropna` name the layer an argument belongs to by a string, and use
+    the string "base" for the base layer (`layer = "base" if len(components) < 2 else components[0]`,
+    then `if layer == "base"`): the path of a field of a nested column that is itself called "base"
+    is taken for a base column.  `all_columns` uses the same key for the list of base columns. -/
+def layerOf (components : List String) : String :=
+  if components.length < 2 then "base" else components.headD ""
+
+def isBaseLayer (layer : String) : Bool := layer == "base"
+
+theorem nest_named_base_is_taken_for_the_base_layer :
+    isBaseLayer (layerOf ["base", "a"]) = true ∧ isBaseLayer (layerOf ["a"]) = true ∧
+    isBaseLayer (layerOf ["n", "a"]) = false := by decide
+
 end NP.Findings
